@@ -2,12 +2,12 @@
 # tier tuple = (shards, rapid checks per shard, timeout seconds)
 
 FRAME_GEN = ("frames generated version-valid by construction (gen.Frame: 43 message kinds x 6 versions, optional fields only where the "
-             "version's specification defines them, boundary-biased values, bodies up to ~256 KiB expanded from (class,seed,length) triples) "
+             "version's specification defines them, boundary-biased values incl. [short bytes] ids of 255/256/32767/32768/65535 bytes, bodies up to ~256 KiB expanded from (class,seed,length) triples) "
              "x compression allowed for the version")
 
 prop("C01", run="^TestC01", level="exploration",
      quick=(16, 2500, 900), thorough=(16, 60000, 7200),
-     rule=FRAME_GEN + "; oracle: encode, decode, canonical equality (nil==empty collections, IPv4 4/16 bytes), reader fully consumed, input not modified, "
+     rule=FRAME_GEN + "; oracle: encode, decode, canonical equality (nil==empty collections, IPv4 4/16 bytes), the bytes read through a generated reader kind (*bytes.Reader, *bytes.Buffer, bufio.Reader, plain io.Reader, short reads) and half of the time followed by further stream bytes that must stay unread, input not modified, "
           "plus message-level Encode/Decode; non-trivial = frame has an optional body part/header flag or a message body > 8 bytes; distinct by canonical frame hash x compression",
      assumptions=["equality is canon.Diff: strict except nil/empty collections, nil/empty [short bytes], IPv4 in 4 or 16 bytes, nil *QueryOptions = defaults",
                   "documented preconditions are respected by the generator (page size >= 0, positional xor named values, non-empty ids/keyspaces)"],
@@ -17,9 +17,9 @@ prop("C01", run="^TestC01", level="exploration",
 
 prop("C03", run="^TestC03", level="exploration",
      quick=(16, 1200, 900), thorough=(16, 30000, 7200),
-     rule=FRAME_GEN + "; streams of 1..8 frames on one (version, compression) followed by sentinel bytes, decoded through a counting reader; every primitive LengthOf*/Write* pair on generated values; "
+     rule=FRAME_GEN + "; streams of 1..8 frames on one (version, compression) followed by sentinel bytes, decoded through a generated reader kind (*bytes.Buffer, *bytes.Reader, bufio.Reader, counting reader, short reads) with exact per-frame consumption; one frame in three is edited after its first encoding (tracing id / warnings / payload toggled, message replaced) and encoded again from the same Frame object; every primitive LengthOf*/Write* pair on generated values; "
           "vint boundary table (2^k-1,2^k,2^k+1, k=0..64, both signs); non-trivial = stream has >= 2 frames or a body-prefix part / primitive encoding > 2 bytes; distinct by stream bytes hash",
-     assumptions=["a frame's consumed length is measured with a counting reader around bytes.Reader"],
+     assumptions=["a frame's consumed length is measured by the source's own remaining-length (bytes.Buffer/Reader), or a counting reader minus what bufio still buffers"],
      text="Randomised exploration of length agreement (header vs emitted, EncodedLength vs Encode, LengthOf* vs Write*) and of exact stream consumption over generated frame sequences.",
      note="Trusted: gen.Frame version gating. Frames hit by the open LZ4 dependency finding are skipped (counted).",
      technique="property-based testing (rapid): length/consumption invariants over generated frames, frame sequences and primitive values", design="DESIGN.md 4 C03")
@@ -27,7 +27,8 @@ prop("C03", run="^TestC03", level="exploration",
 prop("C05", run="^TestC05", level="exploration",
      quick=(12, 400, 900), thorough=(12, 10000, 7200),
      rule=FRAME_GEN + " through the paths DecodeRawFrame+ConvertFromRawFrame, DecodeHeader+DecodeBody, DecodeHeader+DecodeRawBody, DecodeHeader+DiscardBody (seekable and not), "
-          "ConvertToRawFrame+EncodeRawFrame, EncodeBody+EncodeHeader, each compared with DecodeFrame and each required to stop exactly at a sentinel; re-encode clause on valid and mutated "
+          "ConvertToRawFrame+EncodeRawFrame, EncodeBody+EncodeHeader, each compared with DecodeFrame and each required to stop exactly at a sentinel; raw frames and frames decoded from a *bytes.Buffer must survive the caller reusing that buffer; "
+          "on a header re-declaring a negative or shorter body length DecodeRawBody, DiscardBody(seekable) and DiscardBody(stream) must agree (all refuse / all consume exactly that many bytes); re-encode clause on valid and mutated "
           "(flag/opcode/version/bit-flip/byte-set/trailing-garbage) inputs that still decode; non-trivial = non-empty body (paths) / mutated input that differs from the encoder's output (re-encode); distinct by frame or input hash",
      assumptions=["compressed body lengths of frames containing wire maps may differ between two encodings (map order is free); uncompressed lengths must agree",
                   "an encode error on a mutated-but-decodable input is counted, not judged (the property presupposes the re-encode)"],
@@ -77,7 +78,7 @@ prop("C06", run="^TestC06", level="exploration",
      rule="segment payloads: length from boundaries {0,1,2,3,15,16,255,256,65535,65536,65537,131070,131071} / 0..300 / uniform 0..131071 (thorough: additionally EVERY length 0..131071 once per content class and configuration) "
           "x content class (all-equal, short period, text, random, half/half) x self-contained flag x {no compressor, LZ4}; oversize payloads 131072..1 MiB for the refusal clause. Oracle: emitted bytes parsed by an independent "
           "implementation of header packing, CRC-24 and seeded CRC-32 (bitwise, no tables); uncompressed segments byte-exact; LZ4: fallback form or a block the independent LZ4 decoder expands to the payload; round trip incl. header "
-          "length fields; conforming segments built by the reference encoder (fallback and run-length LZ4) must decode. Non-trivial = payload length > 0; distinct by (length, class, seed, flag, compressor)",
+          "length fields; the payload is handed over as a sub-slice of a larger buffer that must stay untouched inside and behind the slice; conforming segments built by the reference encoder (fallback and run-length LZ4) must decode. Non-trivial = payload length > 0; distinct by (length, class, seed, flag, compressor)",
      assumptions=["the uncompressed fallback is signalled by uncompressed-length field = 0 and the payload length in the compressed-length field (the property's anchor and Cassandra's encoder); the literal sentence of spec 2.3.2 ('setting the compressed length to 0') contradicts the layout and is not asserted",
                   "harness/ref/segment.go and harness/ref/lz4.go are trusted base"],
      text="Differential + round-trip exploration of the v5 segment layer against an independent framing/CRC/LZ4 implementation; the thorough tier enumerates every payload length.",
@@ -88,6 +89,7 @@ prop("C07", run="^TestC07", level="fault_enumeration",
      quick=(8, 4000, 900), thorough=(16, 300000, 10800),
      rule="faults on encoded segments: header+CRC-24 bit patterns - quick: all of weight 1..3 over the 48/64 bits of 10 base segments + rapid-sampled weights 1..7 on generated headers; thorough: all weights 1..7 (48-bit base) / 1..6 (64-bit base) / 1..4 (other bases); "
           "payload+CRC-32: every single-bit flip, every pair (payloads <= 256 B), every burst start x length 1..32 x 4 interior masks on payloads of 0..255 (thorough ..4096) bytes, rapid-sampled singles/pairs/bursts on payloads up to 131071 bytes, with and without LZ4. "
+          "structured alterations on generated segments (CRC-24 / CRC-32 bytes in every other order, complemented, zeroed; any two header bytes exchanged) kept to the guaranteed range; the codec under attack has decoded the intact segment before (and keeps doing so). "
           "Header faults are followed by a lazily built tail valid for the lengths the altered header declares. Every case alters >= 1 bit (all non-trivial); distinct by (base, pattern) - enumerations are distinct by construction",
      assumptions=["burst bits are numbered in wire order, least-significant bit of each byte first (the order in which the reflected CRC-32 is a polynomial code)",
                   "the consistent tail uses Go's hash/crc32 and a literal-only LZ4 block; a few compressed lengths have no single-sequence literal block and get a zero tail"],
@@ -112,8 +114,9 @@ VALUE_GEN = ("(CQL type tree: 20 scalars + custom + list/set/map/tuple/UDT neste
 prop("C11", run="^TestC11", level="exploration",
      quick=(16, 6000, 900), thorough=(16, 150000, 7200),
      rule=VALUE_GEN + "; oracle: Encode succeeds, Decode into a fresh value of the same representation succeeds with wasNull=false and reads back (type-directed, through pointers/interfaces) to the same abstract value; "
-          "decode into *interface{} yields the same value and the documented PreferredGoType. Non-trivial = composite type or non-zero value; distinct by (type, version, representation, value)",
-     assumptions=["v2 values keep every element below 65536 bytes and carry no null elements (the format cannot express them)",
+          "decode into *interface{} yields the same value and the documented PreferredGoType; the encoded bytes must not change when another value is encoded afterwards, and after the decoded results have been overwritten in place by their owner a second decode of the same bytes must still deliver the value (no shared state). "
+          "1 case in 16 is a collection whose elements sit at the [short]/[int] length boundaries (32767, 32768, 65535; 65536, 70000 from v3); time.Time values are presented in UTC and six fixed zones. Non-trivial = composite type or non-zero value; distinct by (type, version, representation, value)",
+     assumptions=["v2 values keep every element below 65536 bytes (nested collections of the general generator below 2000 bytes per leaf so that their parents fit) and carry no null elements (the format cannot express them)",
                   "map keys: no NaN, +0/-0 identified (Go map semantics); interface{}-typed keys/fields only where the preferred Go type exists and is hashable",
                   "pre-filled map destinations are not asserted (decoding into a non-empty Go map merges, as encoding/json does)"],
      text="Randomised round-trip exploration over type trees x versions x every accepted Go representation x boundary values, typed and untyped destinations.",
